@@ -41,6 +41,21 @@ Definition uN_wrapping_add (bits a b : Z) : Z := (a + b) mod 2 ^ bits.
 Definition uN_wrapping_sub (bits a b : Z) : Z := (a - b) mod 2 ^ bits.
 Definition uN_max (bits : Z) : Z := 2 ^ bits - 1.
 
+(* ---------- fixed width signed arithmetic (two's complement range [-2^(bits-1), 2^(bits-1))) ---------- *)
+Definition sN_in (bits x : Z) : bool := (- 2 ^ (bits - 1) <=? x) && (x <? 2 ^ (bits - 1)).
+Definition sN_wrap (bits x : Z) : Z := (x + 2 ^ (bits - 1)) mod 2 ^ bits - 2 ^ (bits - 1).
+Definition sN_arith {E} (bits : Z) (chk : bool) (r : Z) : outcome E Z :=
+  if sN_in bits r then Ok r else if chk then Panic POverflow else Ok (sN_wrap bits r).
+Definition sN_add {E} (bits : Z) (chk : bool) (a b : Z) : outcome E Z := sN_arith bits chk (a + b).
+Definition sN_sub {E} (bits : Z) (chk : bool) (a b : Z) : outcome E Z := sN_arith bits chk (a - b).
+Definition sN_mul {E} (bits : Z) (chk : bool) (a b : Z) : outcome E Z := sN_arith bits chk (a * b).
+(* signed division truncates towards zero; MIN / -1 overflows (panics in both profiles) *)
+Definition sN_div {E} (bits : Z) (chk : bool) (a b : Z) : outcome E Z :=
+  if b =? 0 then Panic PDivZero
+  else if sN_in bits (Z.quot a b) then Ok (Z.quot a b) else Panic POverflow.
+(* TryFrom<signed or unsigned> for an unsigned integer of width bits *)
+Definition uN_try_from (bits x : Z) : option Z := if (0 <=? x) && (x <? 2 ^ bits) then Some x else None.
+
 (* u16::to_le_bytes / from_le_bytes *)
 Definition u16_to_le_bytes (h : Z) : list Z := [h mod 256; h / 256].
 Definition u16_from_le_bytes (b : list Z) : Z := nth 0 b 0 + 256 * nth 1 b 0.
@@ -59,6 +74,9 @@ Definition obind_pure {A B} (x : option A) (f : A -> option B) : option B :=
 
 (* assert!(b) *)
 Definition rassert {E} (b : bool) : outcome E unit := if b then Ok tt else Panic PAssert.
+
+(* debug_assert!(b): checked exactly in the profile that has overflow checks on *)
+Definition rdebug_assert {E} (chk b : bool) : outcome E unit := if chk then rassert b else Ok tt.
 
 (* v[i] for a sequence of which only the length and the element are known *)
 Definition index_known {E A} (len i : Z) (x : A) : outcome E A :=
